@@ -39,6 +39,25 @@ pub fn wf(root: &Node) -> Result<(), (String, String)> {
 
 pub fn run(n: usize, rng: &mut Rng, rep: &mut Report) {
     let mut cases: Vec<(cfg::Cfg, String)> = vec![];
+    // boundary of the nesting limit, systematically: exactly / one less / one more than max_nesting nested links,
+    // images and quotes, with EMPTY and non-empty innermost content, with and without an emphasis-like rule (no
+    // emphasis-like rule = no join pass that would tidy up afterwards)
+    for mn in [1u32, 2, 3, 4] {
+        for k in [mn as usize - 1, mn as usize, mn as usize + 1] {
+            if k == 0 { continue; }
+            for inner in ["", "a", " ", "*"] {
+                for with_emph in [false, true] {
+                    let mut c = cfg::Cfg::cmark_only();
+                    if !with_emph { c.mask &= !(1 << 3); } // bit 3 = emphasis (NAMES order)
+                    c.max_nesting = mn;
+                    cases.push((c.clone(), format!("{}{}{}", "![".repeat(k), inner, "](u)".repeat(k))));
+                    cases.push((c.clone(), format!("{}{}{}", "[".repeat(k), inner, "](u)".repeat(k))));
+                    cases.push((c.clone(), format!("{}{}", "> ".repeat(k), if inner.is_empty() { "[](u)" } else { inner })));
+                    cases.push((c.clone(), format!("{}![{}](u)", "- ".repeat((k + 1) / 2), inner)));
+                }
+            }
+        }
+    }
     for _ in 0..n {
         let c = cfg::sample(rng, true, true);
         let d = if rng.chance(1, 4) { crate::oracle::c05::targeted(rng) } else { doc::any_doc(rng) };
